@@ -193,9 +193,11 @@ func (d *DirentCache) Read(pos uint64, n uint32) (dirents []sys.Dirent, errno sy
 		} else if dirents, errno = d.f.Readdir(countToRead); errno != 0 {
 			return
 		} else if countRead := len(dirents); countRead > 0 {
-			d.eof = countRead < countToRead
+			// A short count is not the end: Readdir skips entries which vanished while it read.
 			d.dirents = append(d.dotEntries, dirents...)
 			d.countRead += uint64(countRead)
+		} else {
+			d.eof = true
 		}
 
 		return d.cachedDirents(n), 0
@@ -229,9 +231,11 @@ func (d *DirentCache) Read(pos uint64, n uint32) (dirents []sys.Dirent, errno sy
 
 		// Append the next read entries if we weren't at EOF.
 		if countRead := len(dirents); countRead > 0 {
-			d.eof = countRead < countToRead
+			// A short count is not the end: Readdir skips entries which vanished while it read.
 			d.dirents = append(d.dirents, dirents...)
 			d.countRead += uint64(countRead)
+		} else {
+			d.eof = true
 		}
 	}
 
